@@ -80,12 +80,18 @@ CLAIMS = {
               "which the pinned commit lost rows), the cached answers stand for exactly the assignments the uncached answers stand for "
               "(transparency as a set of assignments; the operator is given by the relation it denotes and rows that may leave keys open); "
               "C05_indexed_full_rows - for operators whose rows bind every cache key the cached rows ARE the uncached rows with their flags. "
-              "NOT proved: that no assignment is yielded twice when rows leave keys open, that each call site of symbolic.py has the "
-              "modelled shape (the translator pins the replay and the flag discipline), and which yield_when_false a row was stored under - "
+              "C05_indexed_no_assignment_twice - for every such operator and history a covered lookup is answered with exactly ONE row, the "
+              "lookup itself (every other retrieved row contains it under the same truth flag; the most-general selection keeps it alone), "
+              "an uncovered one with the operator's own rows: no assignment is yielded twice. C05_call_sites_as_modelled - the translator "
+              "locates in Comparator / AND / ElseIf ._evaluate__ the one coverage test, its position (ElseIf: only for a row the left side "
+              "rejected), the replay through _most_general_(retrieve(...)) and the storing with the current row's flag, on every run. "
+              "NOT proved: which yield_when_false a row was stored under and the composition of the call sites inside one evaluator - "
               "covered by the correspondence check: every "
               "generated query (all shapes) is run twice with caching disabled and twice enabled on fresh objects and the four row "
-              "multisets are compared with each other and with the specification, with cache-hit counts in the evidence."),
-        design='7/C05', technique='Coq proof: abstract memo; concrete index model (exact retrieval, coverage); cached call site over the index by invariants over lookup histories (denotational transparency for every operator, row-exact for full-row operators) + translator-pinned replay / flag discipline + differential correspondence cache on/off',
+              "multisets are compared with each other and with the specification, with cache-hit counts in the evidence; an eighth of "
+              "the cases are histories over the index itself whose retrievals are reduced by BinaryOperator._most_general_, compared as "
+              "exact sequences with the model's most_general (incl. the protocol of a cached else-if whose rows leave keys open)."),
+        design='7/C05', technique='Coq proof: abstract memo; concrete index model (exact retrieval, coverage); cached call site over the index by invariants over lookup histories (denotational transparency and single-row replay for every operator, row-exact for full-row operators) + translator-pinned call sites / replay / flag discipline + differential correspondence cache on/off and index histories with most-general selection',
         note=BASE_NOTE + " The cached path of the implementation (in-place mutation and aliasing of binding dictionaries) is abstracted. The former known finding C05-wildcard-retrieval (rows lost through a mixed wildcard / concrete level of the index) was repaired in /repo: no finding is open for this property."),
     'C06': dict(
         text=("Machine-checked: C06_none / C06_value / C06_many decide the outcome of `the` by the number of satisfying assignments (0, 1, >= 2) "
